@@ -145,6 +145,32 @@ func checkRestructHeights(c *core.Ctx) {
 	}
 
 	calls := ir.CallsTo(fn, ah)
+	// the re-indexing loop may have been extracted into a same-package helper: analyse the
+	// helper's loop and read its parameters through the (single) call site in RestructChain
+	var site *ssa.Call
+	if len(calls) == 0 {
+		for _, ci := range ir.Calls(fn, nil) {
+			cl, isCall := ci.(*ssa.Call)
+			h := ci.Common().StaticCallee()
+			if !isCall || h == nil || h == fn || h.Pkg != fn.Pkg || len(h.Blocks) == 0 {
+				continue
+			}
+			if hc := ir.CallsTo(h, ah); len(hc) > 0 && site == nil {
+				calls, site = hc, cl
+			}
+		}
+	}
+	through := func(v ssa.Value) ssa.Value {
+		if p, isP := v.(*ssa.Parameter); isP && site != nil {
+			h := site.Common().StaticCallee()
+			for i, hp := range h.Params {
+				if hp == p && i < len(site.Common().Args) {
+					return site.Common().Args[i]
+				}
+			}
+		}
+		return v
+	}
 	c.Floor("appendHeader2Main calls in RestructChain", len(calls), 1)
 	for _, call := range calls {
 		pos := c.P.Rel(call.Pos())
@@ -167,7 +193,12 @@ func checkRestructHeights(c *core.Ctx) {
 				}
 			}
 		}
-		c.Decide(up, rule, fn, "the index height goes up by exactly one per re-pointed header", pos, "")
+		if !up {
+			// another algorithm shape: undecided rather than a finding
+			c.Broken(rule, fn, "the index height goes up by exactly one per re-pointed header", pos, "height argument is not a counter φ[start, φ+1]: shape not recognised")
+			continue
+		}
+		c.Hold(rule, fn, "the index height goes up by exactly one per re-pointed header", pos, "")
 		// hash: stack[i], i = φ[entry: len(stack)−1, loop: φ−1]
 		var stack ssa.Value
 		down := false
@@ -189,12 +220,14 @@ func checkRestructHeights(c *core.Ctx) {
 				}
 			}
 		}
-		c.Decide(down, rule, fn, "the branch stack is popped from its last element downward", pos, "")
-		if !up || !down {
+		if !down {
+			c.Broken(rule, fn, "the branch stack is popped from its last element downward", pos, "hash argument is not stack[φ] with φ running from len−1 down: shape not recognised")
 			continue
 		}
+		c.Hold(rule, fn, "the branch stack is popped from its last element downward", pos, "")
 		// the last push: stack = append(prev, X.Hash())
 		var last ssa.Value
+		stack, start = through(stack), through(start)
 		if ap, _ := ir.CallOf(stack); ap != nil {
 			if bi, isB := ap.Common().Value.(*ssa.Builtin); isB && bi.Name() == "append" {
 				for _, e := range eng.VariadicElems(ap.Common().Args[1]) {
